@@ -19,6 +19,22 @@ pub const GEOMS_SMALL: &[(u32, u32, u32)] = &[
     (9, 3, 2),
 ];
 
+/// geometries for the coverage-guided targets (instrumented builds are slow on huge screens)
+pub const GEOMS_FUZZ: &[(u32, u32, u32)] = &[
+    (4, 3, 5),
+    (5, 4, 6),
+    (3, 3, 4),
+    (2, 2, 3),
+    (1, 1, 2),
+    (1, 4, 2),
+    (6, 1, 2),
+    (8, 5, 4),
+    (10, 4, 4),
+    (20, 6, 2),
+    (40, 4, 1),
+    (17, 2, 2),
+];
+
 pub const GEOMS_ALL: &[(u32, u32, u32)] = &[
     (4, 3, 5),
     (5, 4, 6),
